@@ -1,5 +1,6 @@
 """C01 - meshing always outputs a closed, consistently oriented manifold."""
 import lattice
+import vlib
 
 
 def run(ctx):
@@ -36,4 +37,33 @@ def run(ctx):
                           judge="lattice/Mesh2Judge", sitename="MarchingSquares/Bitmap")
     lattice.complex_stage(ctx, "gen", ["c01-gen", "scale=%d" % (2 if quick else 12)],
                           {"panic", "closed", "singular", "outward", "euler"})
+    refusal_stage(ctx)
+    import solids
+    solids.judge_stage(ctx, "sweep", ["c01-sweep", "max=%d" % (200 if quick else 420)], {"panic", "closed", "euler", "outward"},
+                       judge="mesh/SweepJudge", keyfn=lambda rec, clause: "%s:sweep:%s" % (rec["site"], clause))
     ctx.extra["exhaustive"] = True
+
+
+def refusal_stage(ctx):
+    """The meshers' guard: a solid that is true on the outer layer of the sampling lattice (bounds under-reported
+    on one face) is refused ("solid is true outside of bounds") instead of being meshed with a hole."""
+    n = bad = 0
+    for variant, faces in (("MC", 6), ("MCSearch", 6), ("MCFilter", 6), ("MS", 4), ("MSFilter", 4)):
+        for face in range(faces):
+            p = ctx.drv(["c01-refuse", "variant=" + variant, "face=%d" % face], check=False, timeout=120)
+            n += 1
+            refused = p.returncode != 0 and "solid is true outside of bounds" in (p.stderr or "")
+            if refused:
+                continue
+            out = (p.stdout or "").strip()
+            if p.returncode == 0 and out.startswith("RETURNED"):
+                bad += 1
+                ctx.violation("%s:refusal" % {"MC": "MarchingCubes", "MCSearch": "MarchingCubesSearch",
+                                                "MCFilter": "MarchingCubesFilter", "MS": "MarchingSquares",
+                                                "MSFilter": "MarchingSquaresFilter"}[variant],
+                              "%s meshed a solid that is true on the outer lattice layer of face %d instead of refusing it: %s"
+                              % (variant, face, out), {"variant": variant, "face": face, "stdout": out})
+            else:
+                raise vlib.Infra("c01-refuse %s face %d: rc=%s %s" % (variant, face, p.returncode, (p.stderr or "")[-500:]))
+    ctx.counts["evaluations"] += n
+    ctx.stage("refusal", kind="V", cases=n, not_refused=bad)
